@@ -89,10 +89,13 @@ ARGS = {
     'clash': (20, 30, None),
     'overflow': (65500, 10, 10),
     'step0': (100, 30, 0),
+    # new numbers starting at 0: the first renumbered line becomes line 0 (a falsy number)
+    'tozero': (0, None, None),
+    'tozero5': (0, None, 5),
 }
 ARGS_ALL = list(ARGS)
-ARGS_CORE = ['default', 'range', 'far7', 'gap', 'tight', 'high', 'clash', 'inc5']
-ARGS_TRAP = ['default', 'range', 'far7']
+ARGS_CORE = ['default', 'range', 'far7', 'gap', 'tight', 'high', 'clash', 'inc5', 'tozero']
+ARGS_TRAP = ['default', 'range', 'far7', 'tozero']
 ARGS_INPROG = ['range', 'far7', 'default', 'tight']
 
 F1 = (u'\0\x3b', 0x3b)
@@ -463,6 +466,10 @@ def run_case(part, nsid, spec, argnames, second_run=True):
     part.traces += 1
     for argname in argnames:
         args = ARGS[argname]
+        if args[0] == 0 and any(sp_[1] in ZERO_SPECIAL and ns[0] in sp_[2] for sp_ in spec):
+            # the first line becomes line 0, and this program refers to it where 0 does not mean a line
+            # (ON ERROR GOTO 0, ON KEY(n) GOSUB 0, RESUME 0, RETURN 0, ERL=0): its meaning would change
+            continue
         case = dict(base_case, args=argname)
         part.n += 1
         part.traces += 1
